@@ -414,13 +414,18 @@ func c18ValidTree(rt *rapid.T) (tree.Tree, map[string]string) {
 	fill := func() string {
 		return strings.Join(rapid.SliceOfN(rapid.SampledFrom([]string{"text ", "{{ 1 + 2 }}", "\n", "@if(true)y@end", "{{ \"s\" }}", "<p>é</p>", "{{-- c --}}", "@each(i in [1, 2]){{ i }}@end"}), 0, 3).Draw(rt, "fill"), "")
 	}
-	files := map[string]string{
-		"t/layouts/main.tw": fill() + "<html>@reserve(\"title\")" + fill() + "@reserve(\"body\")</html>",
-		"t/comp.tw":         fill() + "<c>{{ v }}@slot(\"s\")" + fill() + "</c>",
-		"t/page.tw":         "@use(\"~main\")@insert(\"title\", \"T\")@insert(\"body\")" + fill() + "@component(\"comp\", {v: 1})\n@slot(\"s\")x@end\n@end;" + fill() + "@end",
-		"t/other.tw":        fill() + "other page",
+	// names are paths like any other: percent signs (and what looks like a formatting verb) included
+	lay, comp, page, other := "main", "comp", "page", "other"
+	if rapid.IntRange(0, 2).Draw(rt, "percentNames") == 0 {
+		lay, comp, page, other = "main%2", "co%mp", "50%off/page", "other%s%d"
 	}
-	role := map[string]string{"t/layouts/main.tw": "layout", "t/comp.tw": "component", "t/page.tw": "page", "t/other.tw": "page"}
+	files := map[string]string{
+		"t/layouts/" + lay + ".tw": fill() + "<html>@reserve(\"title\")" + fill() + "@reserve(\"body\")</html>",
+		"t/" + comp + ".tw":        fill() + "<c>{{ v }}@slot(\"s\")" + fill() + "</c>",
+		"t/" + page + ".tw":        "@use(\"~" + lay + "\")@insert(\"title\", \"T\")@insert(\"body\")" + fill() + "@component(\"" + comp + "\", {v: 1})\n@slot(\"s\")x@end\n@end;" + fill() + "@end",
+		"t/" + other + ".tw":       fill() + "other page",
+	}
+	role := map[string]string{"t/layouts/" + lay + ".tw": "layout", "t/" + comp + ".tw": "component", "t/" + page + ".tw": "page", "t/" + other + ".tw": "page"}
 	// further component uses at nesting positions that run: branches of @if, bodies and @else blocks of loops
 	positions := []string{"@if(true)%s@end", "@if(false)a@else%s@end", "@each(i in [1])%s@end", "@each(i in [])n@else%s@end", "@for(i = 0; i < 1; i++)%s@end",
 		"@for(i = 0; i < 0; i++)n@else%s@end", "@if(false)a@elseif(true)%s@end", "@each(i in [1])@if(i == 1)@each(j in [])n@else%s@end@end@end"}
@@ -432,9 +437,9 @@ func c18ValidTree(rt *rapid.T) (tree.Tree, map[string]string) {
 		role["t/"+name+".tw"] = "component"
 	}
 	if rapid.Bool().Draw(rt, "usesInInsert") {
-		files["t/page.tw"] = strings.TrimSuffix(files["t/page.tw"], "@end") + uses + "@end"
+		files["t/"+page+".tw"] = strings.TrimSuffix(files["t/"+page+".tw"], "@end") + uses + "@end"
 	} else {
-		files["t/other.tw"] += uses
+		files["t/"+other+".tw"] += uses
 	}
 	tr := tree.Tree{}
 	for p, s := range files {
@@ -445,7 +450,7 @@ func c18ValidTree(rt *rapid.T) (tree.Tree, map[string]string) {
 
 func TestC18_FaultEnumeration(t *testing.T) {
 	c := harness.New(t, "C18", "fault-enumeration",
-		"for generated valid directories (page + layout + component + independent page + three more components used in a branch of an @if / @elseif / @else, in the body or the @else of an @each / @for, or in the @else of a loop nested in a loop pass): every file x {deleted, truncated at every byte prefix, replaced by garbage (lexeme soup), dangling symbolic link, directory in its place}. NewTemplate must return without panic or hang either (nil, error) or (template, nil). It must fail with an error naming the damaged file's path when that file is syntactically wrong by itself (decided by parsing it alone) or unreadable, and naming the layout/component (by name or path) when such a file is absent. Non-trivial: the fault is in a layout or component. Every (file, operator, prefix) of each generated tree is enumerated.")
+		"for generated valid directories (names plain or with percent signs; page + layout + component + independent page + three more components used in a branch of an @if / @elseif / @else, in the body or the @else of an @each / @for, or in the @else of a loop nested in a loop pass): every file x {deleted, truncated at every byte prefix, replaced by garbage (lexeme soup), dangling symbolic link, directory in its place}. NewTemplate must return without panic or hang either (nil, error) or (template, nil). It must fail with an error naming the damaged file's path when that file is syntactically wrong by itself (decided by parsing it alone) or unreadable, and naming the layout/component (by name or path) when such a file is absent. Non-trivial: the fault is in a layout or component. Every (file, operator, prefix) of each generated tree is enumerated.")
 	defer c.Finish()
 	alpha := c08Alphabet()
 	runRapid(t, c, 12, 180, func(rt *rapid.T) {
@@ -467,7 +472,7 @@ func TestC18_FaultEnumeration(t *testing.T) {
 		absent := func(p string) []string {
 			switch role[p] {
 			case "layout":
-				return []string{"layouts/main", "main"}
+				return []string{strings.TrimSuffix(strings.TrimPrefix(p, "t/"), ".tw"), strings.TrimSuffix(path.Base(p), ".tw")}
 			case "component":
 				return []string{strings.TrimSuffix(path.Base(p), ".tw")}
 			}
